@@ -362,7 +362,7 @@ def opCheckMultiSig (env : Env) (sub : List POp) (s : St) : Res :=
     match toNum env nk with
     | .error e => .err e
     | .ok nkz =>
-    let numKeys := wrap64 nkz
+    let numKeys := clamp64 nkz
     if numKeys < 0 then .err "ErrInvalidPubKeyCount"
     else if numKeys > env.cfg.maxPubKeys then .err "ErrInvalidPubKeyCount"
     else
@@ -378,7 +378,7 @@ def opCheckMultiSig (env : Env) (sub : List POp) (s : St) : Res :=
     match toNum env ns with
     | .error e => .err e
     | .ok nsz =>
-    let numSigs := wrap64 nsz
+    let numSigs := clamp64 nsz
     if numSigs < 0 then .err "ErrInvalidSignatureCount"
     else if numSigs > nKeys then .err "ErrInvalidSignatureCount"
     else
@@ -415,9 +415,6 @@ def verifyLockTime (txLock threshold lock : Int) : Option String :=
   if !((txLock < threshold && lock < threshold) || (txLock ≥ threshold && lock ≥ threshold)) then some "ErrUnsatisfiedLockTime"
   else if lock > txLock then some "ErrUnsatisfiedLockTime"
   else none
-
-def clamp64 (z : Int) : Int :=
-  if z > 9223372036854775807 then 9223372036854775807 else if z < -9223372036854775808 then -9223372036854775808 else z
 
 /-! ### one opcode (thread.executeOpcode + the handler) -/
 
@@ -612,6 +609,13 @@ def handlerNum (env : Env) (s : St) (v : Nat) : Res :=
     | [] => stackErr
   | _ => .err "ErrReservedOpcode"
 
+/-- thread.subScript: the script code starts after the most recently executed OP_CODESEPARATOR of the current
+    script; `none` = Go's "slice bounds out of range" (proved unreachable: GoBT/Interp/NoPanic*.lean) -/
+def subScript (cur : List POp) (s : St) : Option (List POp) :=
+  if s.lastCodeSep > 0 || s.sepSeen then
+    (if s.lastCodeSep + 1 > cur.length then none else some (cur.drop (s.lastCodeSep + 1)))
+  else some cur
+
 /-- 0xa6–0xaf: hashes, CODESEPARATOR, signature checks -/
 def handlerCrypto (env : Env) (cur : List POp) (off : Nat) (s : St) (v : Nat) : Res :=
   match v with
@@ -622,15 +626,19 @@ def handlerCrypto (env : Env) (cur : List POp) (off : Nat) (s : St) (v : Nat) : 
   | 0xaa => match s.ds with | a :: r => .ok { s with ds := env.H.sha256 (env.H.sha256 a) :: r } | _ => stackErr
   | 0xab => .ok { s with lastCodeSep := off, sepSeen := true }        -- CODESEPARATOR
   | 0xac | 0xad =>                                                   -- CHECKSIG(VERIFY)
-    let sub := if s.lastCodeSep > 0 || s.sepSeen then cur.drop (s.lastCodeSep + 1) else cur
-    (match opCheckSig env sub s with
-     | .ok s' => if v == 0xad then verifyTop "ErrCheckSigVerify" s' else .ok s'
-     | r => r)
+    (match subScript cur s with
+     | none => .panic "subScript: slice bounds out of range"
+     | some sub =>
+       match opCheckSig env sub s with
+       | .ok s' => if v == 0xad then verifyTop "ErrCheckSigVerify" s' else .ok s'
+       | r => r)
   | 0xae | 0xaf =>                                                   -- CHECKMULTISIG(VERIFY)
-    let sub := if s.lastCodeSep > 0 || s.sepSeen then cur.drop (s.lastCodeSep + 1) else cur
-    (match opCheckMultiSig env sub s with
-     | .ok s' => if v == 0xaf then verifyTop "ErrCheckMultiSigVerify" s' else .ok s'
-     | r => r)
+    (match subScript cur s with
+     | none => .panic "subScript: slice bounds out of range"
+     | some sub =>
+       match opCheckMultiSig env sub s with
+       | .ok s' => if v == 0xaf then verifyTop "ErrCheckMultiSigVerify" s' else .ok s'
+       | r => r)
   | _ => .err "ErrReservedOpcode"
 
 /-- fail with the given error, if any, else continue.  (A named function rather than an inline `match`: the kernel
@@ -828,7 +836,7 @@ def runScript (env : Env) (sidx : Nat) (ops : List POp) (s : St) (tr : List Snap
   match runOps env sidx ops ops 0 s tr with
   | (.failed e, tr) => (.stop (.reject e), tr)
   | (.panicked p, tr) => (.stop (.panic p), tr)
-  | (.returned s', tr) => (.byReturn { s' with numOps := 0, early := false }, tr)
+  | (.returned s', tr) => (.byReturn { s' with numOps := 0, early := false, lastCodeSep := 0, sepSeen := false }, tr)
   | (.finished s', tr) =>
     if !s'.cond.isEmpty then (.stop (.reject "ErrUnbalancedConditional"), tr)
     else (.normal { s' with as := [], numOps := 0, early := false, lastCodeSep := 0, sepSeen := false }, tr)
